@@ -45,11 +45,15 @@ func HarnessC39Meta() {
 	hasMtime := verifrt.NondetRange("hasMtime", 0, 1) == 1
 	var secs, ns int64
 	if hasMtime {
-		bases := []int64{0, 1_000_000_000, 1_758_000_000, -2_000_000_000, 253_402_300_799, math.MaxInt64 - w, math.MinInt64 + w}
-		base := bases[verifrt.NondetRange("secBase", 0, len(bases)-1)]
-		d := verifrt.NondetI64("d")
-		verifrt.Assume(d >= -w && d <= w)
-		secs = base + d
+		// seconds: a symbolic window around the epoch, or one of a few concrete far-away instants (decimal
+		// formatting of a symbolic full-width integer is nested 64-bit division, which the solver does not finish)
+		samples := []int64{1_000_000_000, 1_758_000_000, -2_000_000_000, 253_402_300_799, math.MaxInt64, math.MinInt64}
+		if k := verifrt.NondetRange("secKind", 0, len(samples)); k == 0 {
+			secs = verifrt.NondetI64("d")
+			verifrt.Assume(secs >= -w && secs <= w)
+		} else {
+			secs = samples[k-1]
+		}
 		switch verifrt.NondetRange("nsKind", 0, 2) {
 		case 1:
 			ns = verifrt.NondetI64("ns")
